@@ -39,10 +39,12 @@ ASSUMPTIONS = [
 MIN_COUNTERS = {
     'quick': {'wakes_checked': 1500, 'order_pairs_checked': 200,
               'park_points_reached': 25, 'raising_tasks': 20,
-              'clear_cases': 6, 'lock_owned_checks': 1500},
+              'clear_cases': 6, 'lock_owned_checks': 1500, 'move_cases': 6,
+              'moved_while_pending': 20},
     'thorough': {'wakes_checked': 50000, 'order_pairs_checked': 5000,
                  'park_points_reached': 150, 'raising_tasks': 500,
-                 'clear_cases': 40, 'lock_owned_checks': 50000},
+                 'clear_cases': 40, 'lock_owned_checks': 50000, 'move_cases': 40,
+                 'moved_while_pending': 500},
 }
 
 LATE_STRESS = 6.0
@@ -62,7 +64,7 @@ def plan(tier, seed):
         for ck in ('SystemClock', 'AppClock', 'TempoClock'):
             shards.append(dict(name=f'park-{ck}', mode='rt', kind='park', clock=ck,
                                max_cases=90, secs=45, hard_timeout=150))
-        shards.append(dict(name='clear0', mode='rt', kind='clear', rounds=4,
+        shards.append(dict(name='clear0', mode='rt', kind='clear', rounds=3,
                            hard_timeout=90))
     else:
         for i in range(12):
@@ -229,6 +231,7 @@ class H:
     def do_sched(self, clock, how, val, plan, kind, src, decoy=False, ahead=None):
         rec = self.new_rec(clock, how, val, plan, kind, src, decoy, ahead)
         item = self.make_item(rec)
+        rec['item'] = item
         rec['c0_seq'] = self.log.seq()
         rec['c0'] = self.main.elapsed_time()
         try:
@@ -246,6 +249,19 @@ class H:
             rec['c1'] = self.main.elapsed_time()
             rec['c1_seq'] = self.log.seq()
         return rec
+
+    def do_move(self, rec, val):
+        """Schedules the SAME task object again on its clock while (probably)
+        still pending: the clock must move it to the new time."""
+        m = dict(val=val, c0_seq=self.log.seq(), c0=self.main.elapsed_time())
+        try:
+            rec['clock'].sched(val, rec['item'])
+        except Exception as e:
+            m['error'] = repr(e)
+        m['c1'] = self.main.elapsed_time()
+        m['c1_seq'] = self.log.seq()
+        rec.setdefault('moves', []).append(m)
+        return m
 
     def sched_from_task(self, prec, k, logical, ch):
         clock, how, val, plan, kind = ch
@@ -289,6 +305,9 @@ def analyze(h, acc, late_bound, end_phys, cancelled=None, starved=False,
                  {'rec': _rec_repr(rec), 'where': label})
             continue
         if tid in cancelled:
+            continue
+        if rec.get('moves'):
+            _check_moved(rec, evs, acc, late_bound, end_phys, starved, label)
             continue
         exp = expected_wakes(rec['plan'])
         if rec['decoy']:
@@ -382,6 +401,49 @@ def analyze(h, acc, late_bound, end_phys, cancelled=None, starved=False,
             prev = e
     _check_order(inst, acc, viol)
     return inst
+
+
+def _check_moved(rec, evs, acc, late_bound, end_phys, starved, label):
+    """A single-shot task that was scheduled again (moved) once."""
+    ck = rec['ckind']
+    m = rec['moves'][-1]
+    acc.count('moved_tasks_checked')
+    if m.get('error'):
+        acc.violation(f'C08/sched-call-raised/{ck}', {'rec': _rec_repr(rec), 'move': m})
+        return
+    before = [e for e in evs if e[0] < m['c0_seq']]
+    amb = [e for e in evs if m['c0_seq'] <= e[0] <= m['c1_seq']]
+    after = [e for e in evs if e[0] > m['c1_seq']]
+    for e in evs:
+        acc.count('wakes_checked')
+        acc.count('lock_owned_checks')
+        if not e[8]:
+            acc.violation(f'C08/lock-not-held-in-wakeup/{ck}', {'rec': _rec_repr(rec)})
+    if len(before) > 1 or len(after) > 1 or len(evs) > 2:
+        acc.violation(f'C08/woken-too-often/{ck}/moved-task',
+                      {'rec': _rec_repr(rec), 'wakes': len(evs), 'where': label})
+        return
+    if not before and not amb and len(after) != 1:
+        # certainly pending when it was moved: exactly one wake-up, at the new time
+        due = m['c1'] + m['val'] * (2.0 if ck == 'TempoClock' else 1.0)
+        if not after and end_phys - due > late_bound and not starved:
+            acc.violation(f'C08/not-woken-in-time/{ck}/moved-task',
+                          {'rec': _rec_repr(rec), 'where': label})
+        return
+    if after and ck != 'TempoClock':
+        S = after[0][5]
+        if not before and not amb:
+            acc.count('moved_while_pending')
+        if not (m['c0'] + m['val'] - 1e-6 <= S <= m['c1'] + m['val'] + 1e-6):
+            acc.violation(f'C08/sched-time/{ck}/moved-task',
+                          {'rec': _rec_repr(rec), 'expected': [m['c0'] + m['val'],
+                                                               m['c1'] + m['val']],
+                           'got': S})
+        if after[0][4] < S:
+            acc.violation(f'C08/early-wakeup/{ck}', {'rec': _rec_repr(rec), 'moved': True})
+    elif after:
+        if not before and not amb:
+            acc.count('moved_while_pending')
 
 
 def _due_phys(rec, evs):
@@ -503,7 +565,7 @@ def _check_order(inst, acc, viol):
 
 def _rec_repr(rec):
     return {k: (repr(v) if k in ('clock', 'plan', 'src') else v)
-            for k, v in rec.items()}
+            for k, v in rec.items() if k != 'item'}
 
 
 def _inst_repr(x):
@@ -616,6 +678,14 @@ def run_stress(spec, acc):
                     h.log.add('tempo', h.cname(tc), val, 'thread-locked')
                 elif op < 0.07:
                     me.send_msg('/vfk', total[0])
+                elif op < 0.12:
+                    # schedule one task, then schedule the same object again while
+                    # it is still pending (it must move, not multiply or vanish)
+                    total[0] += 1
+                    r0 = h.do_sched(c, 'rel', rng.choice([0.06, 0.1, 0.2]),
+                                    [{'ret': None}], 'tk', ('thread', wi))
+                    time.sleep(rng.choice([0, 0.001, 0.005]))
+                    h.do_move(r0, rng.choice([0.01, 0.03, 0.15, 0.3]))
                 else:
                     total[0] += 1
                     plan = gen_plan(rng, clocks, 0.08)
@@ -1043,10 +1113,38 @@ def run_clear(spec, acc):
             acc.count('clear_cases')
             acc.count('cleared_tasks', len(before))
             acc.case(h64((ck, n, rnd)), nontrivial=True)
+            if ck != 'TempoClock-stop':
+                move_case(h, acc, clock, ck, rng, rnd)
             if ck == 'TempoClock':
                 clock.stop()
     h.report_lockmon(acc)
     acc.maxi('max_host_oversleep_s', h.watch.max_oversleep)
+
+
+def move_case(h, acc, clock, ck, rng, rnd):
+    """Deterministic little history: x scheduled, x scheduled again (moved
+    earlier or later), y behind them, and finally z: each is awakened once."""
+    h.recs.clear()
+    h.log.events.clear()
+    h.watch.reset()
+    single = [{'ret': None}]
+    earlier = rng.random() < 0.6
+    t_x, t_move = (0.3, 0.1) if earlier else (0.1, 0.3)
+    x = h.do_sched(clock, 'rel', t_x, single, 'tk', ('thread', 'mv'))
+    others = [h.do_sched(clock, 'rel', rng.choice([0.05, 0.2, 0.35]), single, 'tk',
+                         ('thread', 'mv')) for _ in range(rng.randint(0, 3))]
+    time.sleep(rng.choice([0, 0.01]))
+    h.do_move(x, t_move)
+    if rng.random() < 0.5:
+        h.do_move(others[0], 0.25) if others else None
+    y = h.do_sched(clock, 'rel', 0.45, single, 'tk', ('thread', 'mv'))
+    time.sleep(0.45 * (2.0 if ck == 'TempoClock' else 1.0) + 0.7)
+    z = h.do_sched(clock, 'rel', 0.02, single, 'tk', ('thread', 'mv'))
+    time.sleep(0.75)
+    starved = h.watch.max_oversleep > 0.25 or h.watch.max_step > 0.05
+    analyze(h, acc, 0.6, h.main.elapsed_time(), starved=starved, label='move')
+    acc.count('move_cases')
+    acc.case(h64(('move', ck, rnd, earlier)), nontrivial=True)
 
 
 def run_shard(spec, acc):
